@@ -100,11 +100,13 @@ def cases(rng, tier, shard, nshards):
                 cand = [l for l in lines if _twinnable(l, version)]
                 if cand:
                     lines = lines + [rng.choice(cand)]
-            yield {"version": version, "lines": lines, "mode": "all", "explicit": rng.random() < 0.3}
+            yield {"version": version, "lines": lines, "mode": "all", "explicit": rng.random() < 0.3,
+                   "vlevel": rng.choice([None, None, 0, 0, 2, 3]), "build": rng.choice(["ctor", "ctor", "incremental"])}
         else:
             lines = small_doc(rng, version, 9) if rng.random() < 0.5 else G.gen_doc(rng, version=version).lines()[:14]
             yield {"version": version, "lines": lines, "mode": "random", "n": 40 if tier == "quick" else 200,
-                   "seed": rng.getrandbits(32), "explicit": rng.random() < 0.3}
+                   "seed": rng.getrandbits(32), "explicit": rng.random() < 0.3,
+                   "vlevel": rng.choice([None, None, 0, 0, 2, 3]), "build": rng.choice(["ctor", "ctor", "incremental"])}
 
 
 def _twinnable(l, version):
@@ -225,6 +227,9 @@ def run(case, ctx):
         return run_multiline(case, ctx)
     lines, version = case["lines"], case["version"]
     kw = {"version": version} if case["explicit"] else {}
+    if case.get("vlevel") is not None:
+        kw["vlevel"] = case["vlevel"]
+        ctx.count("documents_at_level_%d" % case["vlevel"])
     ref = None
     ref_perm = None
     nperm = 0
@@ -248,7 +253,20 @@ def run(case, ctx):
         if tuple(order) in seen_orders:
             continue            # the same text (twins exchanged)
         seen_orders.add(tuple(order))
-        r = call(ctx, "Gfa(list)", gfapy.Gfa, order, **kw)
+        if case.get("build") == "incremental":
+            # the lines arrive one at a time; the queue of version-ambiguous lines is released by the
+            # line which decides the version (every document with a segment has one)
+            def build():
+                g_ = gfapy.Gfa(**kw)
+                for l_ in order:
+                    g_.add_line(l_)
+                if not any(l_.split("\t")[0] == "S" for l_ in order):
+                    g_.process_line_queue()
+                return g_
+            r = call(ctx, "Gfa(); add_line ...", build)
+            ctx.count("incremental_builds")
+        else:
+            r = call(ctx, "Gfa(list)", gfapy.Gfa, order, **kw)
         nperm += 1
         ctx.count("permutations")
         if not r.ok:
